@@ -54,6 +54,12 @@ Section Keys.
     unfold asset_blind. rewrite ST. cbn [obind]. rewrite (dom_guard_ok _ SM). unfold sp_new. rewrite F. reflexivity.
   Qed.
 
+  (* more targets than Asset::blind accepts: refused after the targets are collected *)
+  Lemma wts_over_limit_g spk rk esk s spent tg : surjection_targets spent 0 = OVal tg ->
+    (CT_SURJECTIONPROOF_MAX_N_INPUTS < N.of_nat (length tg))%N ->
+    with_txout_secrets pubk ecdh spk rk esk s spent = OFail BCannotProveSurjection.
+  Proof. intros ST L. unfold with_txout_secrets, asset_blind. rewrite ST. cbn [obind]. rewrite (dom_guard_over _ L). reflexivity. Qed.
+
   (* the blinded output passes the per-output checks in every domain equal to the target generators *)
   Lemma verify_output_wts_g domain k spk rk esk s tg i bf :
     tg_ok tg -> Forall2 geq domain (tgens tg) -> find_tag (s_asset s) tg 0 = Some (i, bf) -> 1 <= s_value s <= I64_MAX ->
@@ -1060,4 +1066,26 @@ Proof.
   intros INS ISS DOM ps sec rnd EI OK IO G RL RZ NE.
   destruct (non_last_char pubk ecdh p ins SS utxos INS ISS DOM ps sec rnd EI OK IO G RL RZ) as (outs' & bl & rnd' & BN & _ & _ & _ & _ & _ & R).
   exists outs', bl, rnd'. split; [|exact R]. rewrite BN. destruct (owned_idx sec (ps_out ps) 0); [contradiction|reflexivity].
+Qed.
+
+(* a surjection domain larger than Asset::blind accepts: a non-last blinder with something to blind is refused at its first output *)
+Lemma non_last_over_limit pubk ecdh p ins SS utxos : Forall3 in_ok ins SS utxos -> issuances_unblinded ins ->
+  (CT_SURJECTIONPROOF_MAX_N_INPUTS < N.of_nat (length (all_ss ins SS)))%N ->
+  forall ps sec rnd, ps_in ps = ins -> sec_ok SS sec -> indices_ok (length ins) (ps_out ps) ->
+  (forall i, In i (owned_idx sec (ps_out ps) 0) -> exists o, nth_error (ps_out ps) i = Some o /\ pgood (party_tg ins sec) o) ->
+  (3 <= length rnd)%nat ->
+  forall i0 rest, owned_idx sec (ps_out ps) 0 = i0 :: rest ->
+  blind_non_last pubk ecdh p ps sec rnd = OFail (PConfidentialTxOutError i0 BCannotProveSurjection).
+Proof.
+  intros INS ISS OV ps sec rnd EI OK IO G RL i0 rest EIDX.
+  unfold blind_non_last, blind_checks. rewrite EI, (check_issuances_ok _ _ ISS). cbn [obind].
+  rewrite (outs_to_blind_eq _ _ _ _ IO). cbn [obind]. rewrite EIDX.
+  destruct (party_targets ins SS utxos INS sec OK) as (sis & SI & ST & _ & _). rewrite SI. cbn [obind blind_each].
+  destruct (G i0) as (o & NE & (a & v & rk & A & V & K & R & (ad & AD) & H & AC & VC)); [rewrite EIDX; now left|].
+  unfold blind_one. rewrite NE, K. cbn [opt_err obind].
+  unfold to_non_last_confidential, to_txout. rewrite AC, VC, A, V. cbn [o_value o_asset o_script].
+  rewrite (address_spk_ok p _ ad AD). cbn [obind]. unfold new_not_last_confidential.
+  destruct rnd as [|x1 [|x2 [|x3 rnd']]]; cbn [length] in RL; try lia. cbn [draw obind].
+  rewrite (wts_over_limit_g pubk ecdh _ _ _ _ sis _ ST); [reflexivity|].
+  rewrite (party_tg_length ins SS utxos INS sec OK). exact OV.
 Qed.
